@@ -110,11 +110,12 @@ var spliceBase = Case{Doc: showcase()}.Markdown() + "\n[^n]: note *text*\n\nref[
 var words = []string{"alpha", "Beta", "gamma", "delta", "lorem", "ipsum", "dolor", "sit", "amet", "x", "Q", "foo", "bar", "baz", "zeta9", "k2", "r2d2",
 	"naïve", "Über", "Привет", "мир", "漢字", "テスト", "한글", "😀", "end.", "then,", "so;", "what?", "it's", "\"q\"", "&", "<", "Zürich", "éa", "I", "go"}
 
-var codeWords = []string{"x", "y1", "foo()", "a+b", "i<n", "&amp;", "*p", "#inc", "<b>", "|", "$v$", "[z](u)", "\\n", "_k_", "ret", "=", "{", "}", "--", "\"s\"", "1.", "- l", "> q"}
+var codeWords = []string{"x", "y1", "foo()", "a+b", "i<n", "&amp;", "*p", "#inc", "<b>", "|", "$v$", "[z](u)", "\\n", "_k_", "ret", "=", "{", "}", "--", "\"s\"", "1.", "- l", "> q",
+	"名前", "ключ=1", "😀", "é", "&Copy;", "&#35;", "\\*", "<!--", "$$"}
 
 // labels that the warm-up documents define as link references and that fidelity documents use in brackets
 // without defining them
-var refLabels = []string{"spec", "ref", "note", "1", "alpha", "Spec"}
+var refLabels = []string{"spec", "ref", "note", "1", "alpha", "Spec", "TOC", "toc"}
 
 // warmPool: documents converted on the same Converter before the judged one. They leave behind whatever a
 // parser keeps per parse: link reference definitions, footnote definitions, heading ids, open math state.
@@ -144,6 +145,38 @@ type g struct {
 	o    Opts
 	hard map[string]bool
 	n    int // words drawn so far
+	big  int // long texts / long code lines drawn so far (at most 2 per document: budget)
+}
+
+// rare draws a size that is usually small and, with a small probability, lies at or beyond the round numbers where
+// fixed-size buffers, one- and two-digit counters and 64-entry tables end: lo..hi in the common case, otherwise
+// one of the mid values (about one draw in 20) or one of the far values (about one in 40). The class is drawn from
+// 1..100, which rapid does not draw uniformly: it yields 4 in 4.8 % and 5 in 2.4 % of the draws (measured); 1, the
+// value shrinking leads to, is the common case.
+func (g *g) rare(name string, lo, hi int, mid, far []int) int {
+	switch r := rapid.IntRange(1, 100).Draw(g.t, name+"class"); {
+	case r == 5 && len(far) > 0:
+		return rapid.SampledFrom(far).Draw(g.t, name+"far")
+	case r == 4 && len(mid) > 0:
+		return rapid.SampledFrom(mid).Draw(g.t, name+"mid")
+	}
+	return rapid.IntRange(lo, hi).Draw(g.t, name)
+}
+
+// sizes (bytes) around which a long line or a long run of text is drawn
+var bigSizes = []int{255, 256, 1023, 1024, 4095, 4096, 4097, 8192, 16384, 32767, 32768, 65535, 65536, 65537, 70000, 131073}
+
+// repFor: how often a unit of n bytes is written to reach one of the bigSizes (just below or just above it)
+func (g *g) repFor(n int) int {
+	if n < 1 {
+		n = 1
+	}
+	sizes := bigSizes
+	if kit.Tier != "thorough" { // 128 KiB only in the thorough tier (budget)
+		sizes = sizes[:len(sizes)-1]
+	}
+	size := rapid.SampledFrom(sizes).Draw(g.t, "bigsize")
+	return size/n + rapid.IntRange(0, 1).Draw(g.t, "over")
 }
 
 // tag makes every word of a document distinct (two letters from a running counter appended to words ending in a
@@ -165,9 +198,22 @@ func (g *g) text(max int) Inl {
 	n := rapid.IntRange(1, max).Draw(g.t, "nwords")
 	ws := make([]string, n)
 	for i := range ws {
+		if wc := rapid.IntRange(1, 1000).Draw(g.t, "wordclass"); wc > 400 && wc <= 425 {
+			// a word that looks like a character reference: resolved or literal, as CommonMark 2.5 says (cref.go)
+			ws[i] = rapid.SampledFrom(crefWords).Draw(g.t, "cref")
+			if rapid.IntRange(0, 5).Draw(g.t, "glue") == 0 { // inside a word: AT&amp;T, R&D;
+				ws[i] = g.tag("x") + ws[i] + rapid.SampledFrom([]string{"", "T", ";", "."}).Draw(g.t, "crefsuffix")
+			}
+			continue
+		}
 		ws[i] = g.tag(rapid.SampledFrom(words).Draw(g.t, "word"))
 	}
-	return Inl{K: "t", S: strings.Join(ws, " ")}
+	x := Inl{K: "t", S: strings.Join(ws, " ")}
+	if lt := rapid.IntRange(1, 1000).Draw(g.t, "longtext"); g.big < 2 && lt > 500 && lt <= 503 {
+		g.big++
+		x.N = g.repFor(len(x.S) + 1)
+	}
+	return x
 }
 
 func (g *g) codeSpan() Inl {
@@ -313,7 +359,7 @@ func (g *g) inlines(ctx string, max int) []Inl {
 }
 
 func (g *g) codeLines(top bool, indented bool) []string {
-	n := rapid.IntRange(1, 5).Draw(g.t, "nlines")
+	n := g.rare("nlines", 1, 5, []int{9, 10, 11, 12, 16}, []int{63, 64, 65, 100, 130})
 	var ls []string
 	for i := 0; i < n; i++ {
 		if i > 0 && i < n-1 && g.pct("blankline", 25) {
@@ -342,8 +388,11 @@ func (g *g) codeLines(top bool, indented bool) []string {
 }
 
 func (g *g) table() Blk {
-	nc := rapid.IntRange(1, 4).Draw(g.t, "ncols")
-	nr := rapid.IntRange(1, 4).Draw(g.t, "nrows")
+	nc := g.rare("ncols", 1, 4, []int{9, 10, 11, 12}, []int{16, 17, 32, 33, 63, 64, 65})
+	nr := g.rare("nrows", 1, 4, []int{9, 10, 11, 12}, []int{32, 33, 64, 65, 100})
+	if nc > 12 && nr > 12 {
+		nr = 3
+	}
 	if g.hard["headeronly"] {
 		nr = 0
 	}
@@ -387,11 +436,17 @@ func (g *g) list(depth int) Blk {
 	if b.K == "ul" {
 		b.Mark = rapid.SampledFrom([]string{"-", "*", "+"}).Draw(g.t, "bullet")
 	} else {
-		b.Start = rapid.SampledFrom([]int{1, 1, 0, 2, 7, 10, 99}).Draw(g.t, "start")
+		b.Start = rapid.SampledFrom([]int{1, 1, 1, 0, 2, 7, 9, 10, 99, 100, 999, 65535, 999999990}).Draw(g.t, "start")
 	}
 	b.Loose = g.pct("loose", 30)
 	task := b.K == "ul" && g.o.GFM && g.pct("tasklist", 35)
-	n := rapid.IntRange(1, 4).Draw(g.t, "nitems")
+	n := g.rare("nitems", 1, 4, []int{9, 10, 11, 12}, []int{32, 33, 64, 65, 100})
+	if depth > 0 && n > 12 {
+		n = 12
+	}
+	if g.hard["blocks"] && n > 4 { // items with blocks of their own: the tree grows with every level
+		n = 4 + n%9>>uint(2*depth)
+	}
 	for i := 0; i < n; i++ {
 		it := Item{}
 		if task {
@@ -461,14 +516,27 @@ func (g *g) block(depth int, top bool) Blk {
 		if b.Level <= 2 {
 			b.Setext = g.pct("setext", 40)
 		}
+		if !b.Setext && g.pct("closing", 12) {
+			b.Mark = "#"
+		}
 		return b
 	case "code":
 		b := Blk{K: "code", Fenced: g.pct("fenced", 60)}
 		if b.Fenced {
 			b.Tilde = g.pct("tilde", 25)
-			b.Info = rapid.SampledFrom([]string{"", "", "go", "python", "text"}).Draw(g.t, "info")
+			b.Info = rapid.SampledFrom([]string{"", "", "", "go", "go", "python", "text", "c++", "math", "mermaid", "diff", "latex", "md", "text title=x"}).Draw(g.t, "info")
 		}
 		b.Lines = g.codeLines(top, !b.Fenced)
+		if ll := rapid.IntRange(1, 100).Draw(g.t, "longline"); g.big < 2 && (ll == 3 || ll == 4) { // about one block in 10 (see rare)
+			// one line of the block is long (minified script, base64 blob): up to 128 KiB
+			g.big++
+			i := rapid.IntRange(0, len(b.Lines)-1).Draw(g.t, "longat")
+			if b.Lines[i] == "" {
+				b.Lines[i] = "x"
+			}
+			b.Rep = make([]int, len(b.Lines))
+			b.Rep[i] = g.repFor(len(b.Lines[i]))
+		}
 		if b.Fenced && top && g.pct("fenceindent", 45) {
 			// fences indented 1-3 blanks; the raw content lines start with the same blanks, fewer, more, a tab,
 			// tabs, or tab+blanks - CommonMark removes up to FIndent columns from each
@@ -538,10 +606,19 @@ func genAST(t *rapid.T) Case {
 		c.Cls = "clean"
 	}
 	gg.o = c.Opts
-	n := rapid.IntRange(1, kit.Scale(7, 12)).Draw(t, "nblocks")
+	n := gg.rare("nblocks", 1, kit.Scale(7, 12), nil, []int{13, 16, 20, 33, kit.Scale(33, 65)})
+	manyHeadings := n > 12 && gg.pct("manyheadings", 50) // a document with 10+ / 64+ headings (table of contents, bookmarks)
 	for i := 0; i < n; i++ {
+		if manyHeadings && i%4 != 3 {
+			b := Blk{K: "h", Level: rapid.IntRange(1, 6).Draw(t, "level"), I: gg.inlines("plain", 2)}
+			c.Doc = append(c.Doc, b)
+			continue
+		}
 		c.Doc = append(c.Doc, gg.block(0, true))
 	}
+	eol := rapid.IntRange(1, 100).Draw(t, "eol")
+	c.CRLF = eol > 40 && eol <= 52
+	c.NoEOL = eol > 48 && eol <= 60
 	separateIndented(c.Doc)
 	return c
 }
